@@ -52,10 +52,11 @@ VARIABLES
   lastae,    \* node -> the AppendEntries call it handled last while quiescent, until its next status
   s7,        \* set of nodes on which the signature of known finding S7 occurred
   vrep,      \* node -> time at which it was last handed a replication reply from a voter of its configuration
+  rlast,     \* <<node, voter>> -> line of the last replication reply from that voter handed to the node
   bad        \* set of violation records
 
 vars == <<l, meta, dur, pstate, maxterm, votes, applied, cursor, leaders, lfirst, committed,
-          reqs, hpre, stat, inv, wdone, rdone, retd, dead, mtrack, mwait, finals, healed, s5, hl, fsmc, taken, sopen, isidx, lastae, s7, vrep, bad>>
+          reqs, hpre, stat, inv, wdone, rdone, retd, dead, mtrack, mwait, finals, healed, s5, hl, fsmc, taken, sopen, isidx, lastae, s7, vrep, rlast, bad>>
 
 -----------------------------------------------------------------------------
 Ev == Trace[l]
@@ -449,6 +450,17 @@ C05_Reads ==
     (IF stale # {} THEN {V("C05", "StaleRead", <<Ev.op, Ev.last, stale>>)} ELSE {})
     \cup
     (IF back # {} THEN {V("C05", "ReadWentBackwards", <<Ev.op, Ev.last, back>>)} ELSE {})
+    \cup
+    \* C05 holds for EVERY schedule and assumes nothing about time.  A node that answers a read
+    \* without having heard, between invocation and answer, from voters that together with itself
+    \* form a majority cannot tell this execution from one in which the other majority has elected a
+    \* leader and acknowledged a write meanwhile - in that execution the same answer is stale.  So
+    \* the universally quantified property implies this per-execution condition (static membership).
+    (LET n == Ev.node
+         heard == {v \in Voters \ {n} : Get(rlast, <<n, v>>, 0) > il} IN
+     IF meta.family # "member" /\ n \in Voters /\ Cardinality(Voters) > 1
+          /\ (Cardinality(heard) + 1) * 2 <= Cardinality(Voters)
+       THEN {V("C05", "ReadServedWithoutVoterMajority", <<Ev.op, n, heard, Voters>>)} ELSE {})
 
 (* C17 -- lease reads under the timing assumption (the harness bounds every message delay by  *)
 (* election timeout - lease duration and there is one clock): same freshness clauses          *)
@@ -468,6 +480,10 @@ NextVrep ==
   ELSE IF Is("reply") /\ Ev.kind \in {"ae", "is"} /\ Ev.to \in Voters THEN Put(vrep, Ev.from, Ev.t)
   ELSE IF (Is("restart") \/ Is("crash")) /\ Ev.node \in DOMAIN vrep THEN Del(vrep, Ev.node)
   ELSE vrep
+NextRlast ==
+  IF Is("scenario") THEN <<>>
+  ELSE IF Is("reply") /\ Ev.kind \in {"ae", "is"} THEN Put(rlast, <<Ev.from, Ev.to>>, l)
+  ELSE rlast
 C17_Refusal ==
   \* (the lease family never changes the set of voters: they are the scenario's initial voters)
   IF ~(OkLease /\ meta.family = "lease" /\ "lease_us" \in DOMAIN meta) THEN {} ELSE
@@ -786,7 +802,7 @@ Init ==
   /\ dur = <<>> /\ pstate = <<>> /\ maxterm = <<>> /\ votes = {} /\ applied = <<>> /\ cursor = <<>>
   /\ leaders = <<>> /\ lfirst = {} /\ committed = <<>> /\ reqs = <<>> /\ hpre = <<>> /\ stat = <<>>
   /\ inv = <<>> /\ wdone = {} /\ rdone = {} /\ retd = {} /\ dead = {} /\ mtrack = <<>> /\ mwait = <<>>
-  /\ finals = <<>> /\ healed = FALSE /\ s5 = FALSE /\ hl = NoHealthy /\ fsmc = <<>> /\ taken = {} /\ sopen = <<>> /\ isidx = <<>> /\ lastae = <<>> /\ s7 = {} /\ vrep = <<>> /\ bad = {}
+  /\ finals = <<>> /\ healed = FALSE /\ s5 = FALSE /\ hl = NoHealthy /\ fsmc = <<>> /\ taken = {} /\ sopen = <<>> /\ isidx = <<>> /\ lastae = <<>> /\ s7 = {} /\ vrep = <<>> /\ rlast = <<>> /\ bad = {}
 
 Next ==
   /\ l <= Len(Trace)
@@ -817,6 +833,7 @@ Next ==
   /\ finals' = (IF Is("scenario") THEN <<>> ELSE IF Is("final") THEN Put(finals, Ev.node, Ev) ELSE finals)
   /\ healed' = (IF Is("scenario") THEN FALSE ELSE IF Is("heal") THEN TRUE ELSE healed)
   /\ vrep' = NextVrep
+  /\ rlast' = NextRlast
   /\ s5' = (IF Is("scenario") THEN FALSE ELSE s5 \/ KF_S5)
   /\ hl' = NextHl
   /\ fsmc' = NextFsmc
